@@ -107,6 +107,54 @@ def o141(ctx):
                 raise Unsupported(f"affine_transform is called with {o_}= other than the default: not interpreted", ev.node)
 
 
+def _stamp_checks(ctx, q, m, it, stores, rot_idx):
+    # stamp: inside the template -> colour of the same particle; outside -> existing voxels
+    st = stores[-1]
+    val = st.args[2]
+    vt = to_term(val)
+    ctx.count(1, {"stamped value": tm.show(vt)[:200]})
+    # the volume the stamps go into holds the colouring values as they are
+    tgt_ = st.args[0]
+    while getattr(tgt_, "alloc_dtype", None) is None and getattr(tgt_, "before", None) is not None:
+        tgt_ = tgt_.before  # the value the variable had when the loop was entered (element stores do not change the type)
+    nd_ = getattr(tgt_, "alloc_dtype", None)
+    ctx.count(1, {"element type of a volume allocated here": nd_ or "float64 (library default)"})
+    if nd_ is not None and (str(nd_).startswith(("int", "uint")) or nd_ in ("short", "intc", "float16")):
+        ctx.finding(q, st.node, f"the volume the particles are stamped into is allocated as {nd_}: the value of the colouring field is converted on the "
+                    "way in (a score of 0.37 becomes 0, an id above the type's range wraps around), so the placed object no longer carries the "
+                    "field's value", st.node, m)
+    # the thresholded template window is the sub-term compared with 1 / multiplied: find the template-window atom
+    tw = None
+    for n in tm.walk(vt):
+        if n.op == "ite" and tm.has_call(n.args[0], "cryocat.cryomap.rotate") and not tm.has_call(n.args[1], "cryocat.cryomap.rotate") \
+                and tm.cval(n.args[1]) in (1, 1.0) and tm.cval(n.args[2]) in (0, 0.0):
+            tw = n
+    target_idx = to_term(st.args[1])
+    existing = [n for n in tm.walk(vt) if n.op == "call" and n.args[0] == "getitem" and not tm.has_call(n.args[1], "cryocat.cryomap.rotate")
+                and n.args[2] == target_idx]
+    col_idx = {n.key(): n for n in tm.walk(tm.subst(vt, {tw: const(1.0)}) if tw is not None else vt)
+               if n.op == "call" and n.args[0] == "enum_index"}
+    ctx.count(1, {"particle index of rotation / colour": [tm.show(x)[:60] for x in list(rot_idx.values()) + list(col_idx.values())]})
+    if len(rot_idx) != 1 or set(rot_idx) != set(col_idx):
+        ctx.finding(q, st.node, "rotation, position and colour must be taken from the same particle (the index of the loop over the "
+                    "positions)", st.node, m)
+    if tw is None:
+        raise Unsupported("thresholded template (object_map > 0.1 -> 1/0) not found in the stamped value", st.node)
+    inside = tm.subst(vt, {tw: const(1.0)})
+    outside = tm.subst(vt, {tw: const(0.0)})
+    ctx.count(1)
+    if not existing or not tm.equivalent(outside, tm.subst(existing[0], {tw: const(0.0)}), seed_tag="outside"):
+        ctx.finding(q, st.node, "voxels of the stamp window outside the thresholded template must keep the existing content of the "
+                    "volume (earlier particles / a pre-filled volume); the code overwrites them", st.node, m,
+                    outside=tm.show(outside)[:160])
+    ctx.count(1)
+    if tm.equivalent(inside, outside, seed_tag="io") or tm.has_call(inside, "cryocat.cryomap.rotate"):
+        ctx.finding(q, st.node, "voxels inside the thresholded template must get the particle's colour value", st.node, m,
+                    inside=tm.show(inside)[:160])
+    elif not tm.contains(inside, lambda n: n.op == "call" and n.args[0] in ("col", "elem", "getitem", "each") or n.op == "sym"):
+        ctx.finding(q, st.node, "the colour must come from the requested feature column", st.node, m)
+
+
 def o142_list(ctx, q, m, fn):
     """the other input form: one template per particle (a list).  The i-th template goes with the i-th particle's orientation, through rotate
     with transpose_rotation=True, exactly as in the single-template form"""
@@ -137,6 +185,11 @@ def o142_list(ctx, q, m, fn):
     if not tm.contains(rt, lambda n: n == particle_R()) or not tm.has_sym(st_, "templates") or not ri or ri != ti:
         ctx.finding(q, ev.node, "with a list of templates the i-th template must be rotated by the i-th particle's orientation", ev.node, m,
                     template=tm.show(st_)[:100], rotation=tm.show(rt)[:100])
+    # the stamp itself is the same in both forms: thresholded rotated template -> colour of the same particle, the rest of the window kept
+    stores = [e for e in it.events if e.kind == "store" and e.fn == q and e.name in ("elementwise", "array", "array-opaque", "opaque")]
+    if not stores:
+        raise Unsupported("place_object (list of templates): stamp not recognised", fn)
+    _stamp_checks(ctx, q, m, it, stores, {k: None for k in ri})
 
 
 def o142(ctx):
@@ -198,51 +251,7 @@ def o142(ctx):
     if not ok:
         ctx.finding(q, wins[0].node, "the stamp window must be centred at the particle's complete position (x+shift) converted from "
                     "1-based to 0-based indices (minus 1)", wins[0].node, m)
-    # stamp: inside the template -> colour of the same particle; outside -> existing voxels
-    st = stores[-1]
-    val = st.args[2]
-    vt = to_term(val)
-    ctx.count(1, {"stamped value": tm.show(vt)[:200]})
-    # the volume the stamps go into holds the colouring values as they are
-    tgt_ = st.args[0]
-    while getattr(tgt_, "alloc_dtype", None) is None and getattr(tgt_, "before", None) is not None:
-        tgt_ = tgt_.before  # the value the variable had when the loop was entered (element stores do not change the type)
-    nd_ = getattr(tgt_, "alloc_dtype", None)
-    ctx.count(1, {"element type of a volume allocated here": nd_ or "float64 (library default)"})
-    if nd_ is not None and (str(nd_).startswith(("int", "uint")) or nd_ in ("short", "intc", "float16")):
-        ctx.finding(q, st.node, f"the volume the particles are stamped into is allocated as {nd_}: the value of the colouring field is converted on the "
-                    "way in (a score of 0.37 becomes 0, an id above the type's range wraps around), so the placed object no longer carries the "
-                    "field's value", st.node, m)
-    # the thresholded template window is the sub-term compared with 1 / multiplied: find the template-window atom
-    tw = None
-    for n in tm.walk(vt):
-        if n.op == "ite" and tm.has_call(n.args[0], "cryocat.cryomap.rotate") and not tm.has_call(n.args[1], "cryocat.cryomap.rotate") \
-                and tm.cval(n.args[1]) in (1, 1.0) and tm.cval(n.args[2]) in (0, 0.0):
-            tw = n
-    target_idx = to_term(st.args[1])
-    existing = [n for n in tm.walk(vt) if n.op == "call" and n.args[0] == "getitem" and not tm.has_call(n.args[1], "cryocat.cryomap.rotate")
-                and n.args[2] == target_idx]
-    col_idx = {n.key(): n for n in tm.walk(tm.subst(vt, {tw: const(1.0)}) if tw is not None else vt)
-               if n.op == "call" and n.args[0] == "enum_index"}
-    ctx.count(1, {"particle index of rotation / colour": [tm.show(x)[:60] for x in list(rot_idx.values()) + list(col_idx.values())]})
-    if len(rot_idx) != 1 or set(rot_idx) != set(col_idx):
-        ctx.finding(q, st.node, "rotation, position and colour must be taken from the same particle (the index of the loop over the "
-                    "positions)", st.node, m)
-    if tw is None:
-        raise Unsupported("thresholded template (object_map > 0.1 -> 1/0) not found in the stamped value", st.node)
-    inside = tm.subst(vt, {tw: const(1.0)})
-    outside = tm.subst(vt, {tw: const(0.0)})
-    ctx.count(1)
-    if not existing or not tm.equivalent(outside, tm.subst(existing[0], {tw: const(0.0)}), seed_tag="outside"):
-        ctx.finding(q, st.node, "voxels of the stamp window outside the thresholded template must keep the existing content of the "
-                    "volume (earlier particles / a pre-filled volume); the code overwrites them", st.node, m,
-                    outside=tm.show(outside)[:160])
-    ctx.count(1)
-    if tm.equivalent(inside, outside, seed_tag="io") or tm.has_call(inside, "cryocat.cryomap.rotate"):
-        ctx.finding(q, st.node, "voxels inside the thresholded template must get the particle's colour value", st.node, m,
-                    inside=tm.show(inside)[:160])
-    elif not tm.contains(inside, lambda n: n.op == "call" and n.args[0] in ("col", "elem", "getitem", "each") or n.op == "sym"):
-        ctx.finding(q, st.node, "the colour must come from the requested feature column", st.node, m)
+    _stamp_checks(ctx, q, m, it, stores, rot_idx)
 
 
 def win_expected(c, V, s):
@@ -428,4 +437,4 @@ def _obligations():
 
 
 def obligations():
-    return _obligations() + [constructors_obligation(['cryomotl.Motl', 'cryomotl.EmMotl']), labels_obligation("C14"), selectors_obligation("C14"), mutations_obligation("C14"), effects_obligation("C14"), plumbing_obligation("C14"), overrides_obligation("C14"), options_obligation("C14"), handlers_obligation("C14")]
+    return _obligations() + [constructors_obligation(['cryomotl.Motl', 'cryomotl.EmMotl']), labels_obligation("C14"), selectors_obligation("C14"), mutations_obligation("C14"), loopstate_obligation("C14"), effects_obligation("C14"), plumbing_obligation("C14"), overrides_obligation("C14"), options_obligation("C14"), handlers_obligation("C14")]
